@@ -296,6 +296,211 @@ def oracle_c19(cid, impl, m):
     return True
 
 
+# ---------------------------------------------------------------- store oracles (C04 C05 C06 C07 C17)
+# Columns (see lean/Driver/Store.lean): per item i of a history  s<i> status, o<i> observation, d<i> table in shard
+# order, m<i> table as sorted multiset, u<i> mapping table, f<i> other networks untouched (impl and model: the
+# correspondence); k<i> op code, sm<i> state of the multiset SPECIFICATION, so<i> the specification's answer to a
+# complete listing, pp<i> page size in force, tk<i> token kind (model only: what the oracles judge the impl against).
+
+_EMPTY = ("0:cbf29ce484222325", "0:")       # digest of the empty table (hashed, verbose)
+
+
+def _store_items(m):
+    n = int(m.get("ops", "0"))
+    return [i for i in range(n) if f"k{i}" in m]
+
+
+def _la_ok(i, impl, m):
+    """A complete listing against the specification: accepted iff the spec accepts, same multiset."""
+    so = m.get(f"so{i}")
+    if so is None:
+        return None
+    st = impl.get(f"s{i}")
+    if so == "rej":
+        if st == "ok":
+            return f"item {i}: listing accepted ({impl.get(f'o{i}')}) but the specification rejects the request"
+        return None
+    if st != "ok":
+        return f"item {i}: listing answered {st} but the specification expects {so}"
+    got = impl.get(f"o{i}", "").split("/")[0]
+    if got != so:
+        return f"item {i}: listing returned {got}, the multiset specification says {so}"
+    return None
+
+
+def oracle_c04(cid, impl, m):
+    """After every request the table is, as a multiset per network, what the multiset specification predicts;
+    every complete listing (any query shape) returns exactly the matching relationships; rejected writes have
+    no effect (the specification's state does not move on a rejected request)."""
+    if "spec" not in m:
+        return None
+    for i in _store_items(m):
+        st = impl.get(f"s{i}")
+        if st in ("internal", "panic") and m.get(f"k{i}") != "RM":
+            return ("c04-internal", f"item {i} ({m.get(f'k{i}')}): answered {st} without an injected fault")
+        if impl.get(f"m{i}") != m.get(f"sm{i}"):
+            return ("c04-deviation", f"item {i} ({m.get(f'k{i}')}, status {st}): stored multiset {impl.get(f'm{i}')} "
+                                     f"but the specification predicts {m.get(f'sm{i}')}")
+        msg = _la_ok(i, impl, m)
+        if msg:
+            return ("c04-list", msg)
+    return True
+
+
+def oracle_c05(cid, impl, m):
+    """All or nothing under injected statement faults: a request that is not answered ok leaves the relationship
+    table (order and multiset) and the mapping table exactly as before; an ok request applies completely
+    (multiset = specification)."""
+    if "spec" not in m:
+        return None
+    prev = None
+    for i in _store_items(m):
+        st = impl.get(f"s{i}")
+        cur = (impl.get(f"d{i}"), impl.get(f"m{i}"), impl.get(f"u{i}"))
+        if st != "ok":
+            if prev is None:
+                if not (cur[0] in _EMPTY and cur[1] in _EMPTY and cur[2] in _EMPTY):
+                    return ("c05-partial", f"item {i} ({m.get(f'k{i}')}): answered {st} but the empty database changed: {cur}")
+            elif cur != prev:
+                return ("c05-partial", f"item {i} ({m.get(f'k{i}')}): answered {st} but the database changed: {prev} -> {cur}")
+        else:
+            if impl.get(f"m{i}") != m.get(f"sm{i}"):
+                return ("c05-partial", f"item {i} ({m.get(f'k{i}')}): answered ok but stored {impl.get(f'm{i}')}, "
+                                       f"complete application gives {m.get(f'sm{i}')}")
+        prev = cur
+    return True
+
+
+def oracle_c06(cid, impl, m):
+    """Isolation: no request changes the rows of another network (f<i> = 1, computed by the harness from the
+    table before/after, shard ids included) and every complete listing in a network returns exactly that
+    network's matching relationships (no leak)."""
+    if "spec" not in m:
+        return None
+    for i in _store_items(m):
+        if impl.get(f"f{i}") != "1":
+            return ("c06-frame", f"item {i} ({m.get(f'k{i}')}): rows of another network changed")
+        if impl.get(f"m{i}") != m.get(f"sm{i}"):
+            return ("c06-frame", f"item {i} ({m.get(f'k{i}')}): stored multiset {impl.get(f'm{i}')} but the per-network "
+                                 f"specification predicts {m.get(f'sm{i}')}")
+        msg = _la_ok(i, impl, m)
+        if msg:
+            return ("c06-leak", msg)
+    return True
+
+
+def oracle_c07(cid, impl, m):
+    """Pagination: a complete listing returns every match exactly once (= the specification's multiset), in
+    ceil(n/s') pages (at least one) of at most s' rows; a single page has at most s' rows; a negative page size
+    and a malformed token are client errors; completed interleaved iterations return every untouched row
+    exactly once (x_it<i>, computed by the harness from the table dumps)."""
+    if "spec" not in m:
+        return None
+    for i in _store_items(m):
+        k = m.get(f"k{i}")
+        if k not in ("L", "LA", "PL"):
+            continue
+        st = impl.get(f"s{i}")
+        pp = m.get(f"pp{i}")
+        if pp == "neg":
+            if st not in ("bad", "notfound"):      # a client error (404 if the query also names an unknown namespace)
+                return ("c07-negative-size", f"item {i} ({k}): negative page size answered {st}")
+            continue
+        if m.get(f"tk{i}") == "b":
+            if st not in ("bad", "notfound"):
+                return ("c07-bad-token", f"item {i} ({k}): malformed page token answered {st}")
+            continue
+        if st != "ok":
+            continue
+        obs = impl.get(f"o{i}", "")
+        if k == "LA":
+            msg = _la_ok(i, impl, m)
+            if msg:
+                return ("c07-listing", msg)
+            parts = obs.split("/")
+            n = int(parts[0].split(":")[0])
+            npages, maxlen, s = int(parts[1]), int(parts[2]), int(pp)
+            if maxlen > s:
+                return ("c07-page-size", f"item {i}: a page of {maxlen} rows with page size {s}")
+            want = max(1, -(-n // s))
+            if npages != want:
+                return ("c07-token", f"item {i}: {n} rows in {npages} pages with page size {s}, expected {want} "
+                                     "(token empty iff last page)")
+        else:
+            n = int(obs.split("/")[0].split(":")[0])
+            if n > int(pp):
+                return ("c07-page-size", f"item {i} ({k}): a page of {n} rows with page size {pp}")
+            if n < int(pp) and not obs.endswith("/-"):
+                return ("c07-token", f"item {i} ({k}): a page of {n} < {pp} rows carries a next-page token")
+    for key, v in impl.items():
+        if key.startswith("x_it") and v != "1":
+            return ("c07-interleaved", f"{key}={v}: an untouched matching row was not returned exactly once")
+    return True
+
+
+def oracle_c17(cid, impl, m):
+    """The read API leaves every table byte-identical (changed = 0 on the implementation; the model's reads are
+    state preserving by C17_readonly)."""
+    if "changed" not in impl:
+        return None
+    if impl["changed"] != "0":
+        return ("c17-changed", "the database differs after a sequence of read-API requests")
+    return True
+
+
+STORE_RULE = ("histories of 5-40 requests against one registry (tables cleared between cases): REST PUT/DELETE/PATCH, gRPC "
+              "Transact/Delete, direct Persister calls; valid and invalid arguments (unknown namespace, no subject, both subjects, "
+              "unknown action, null delta, malformed requests), duplicates, insert+delete of the same tuple in one patch, delete "
+              "lists up to 250; all 2^4 query shapes x {subject id, subject set}; adversarial UTF-8 strings interned per case; "
+              "observations after most writes: complete listing (REST / gRPC / deprecated gRPC query form), single pages with sizes "
+              "0,1,..,n+1,100,101,negative,huge and tokens none/previous/random/nil/junk, exists, full table dump in shard order "
+              "after every item; non-trivial = at least one successful write and one ok listing; distinct = distinct protocol lines")
+
+
+
+# ---------------------------------------------------------------- expand oracle (C09)
+
+def _ids(s):
+    return set(x for x in (s or "").split(",") if x != "")
+
+
+def oracle_c09(cid, impl, m):
+    """Expand is sound (leaves within reach), complete within the effective depth (a miss
+    is the known finding only if the implementation's tree is the model's tree), complete
+    when no depth cut happened, equal to the check engine's answers when no cut happened
+    and the configuration has no rewrites, and the transports return the engine's tree."""
+    if "tree" not in m or "reach" not in m or "tree" not in impl or "leaves" not in impl:
+        return None
+    if impl.get("transports_agree", "1") != "1":
+        return ("c09-transports", f"REST / gRPC / engine trees differ: rest={impl.get('x_rest', '')[:200]} grpc={impl.get('x_grpc', '')[:200]} engine={impl['tree'][:200]}")
+    if impl["tree"].startswith(("error:", "panic:", "setup:", "map:")) or "?" in impl["tree"]:
+        return ("c09-error", f"expand failed: {impl['tree'][:200]}")
+    leaves, reach, reachd = _ids(impl["leaves"]), _ids(m["reach"]), _ids(m.get("reachd"))
+    if not leaves <= reach:
+        return ("c09-unsound", f"subject ids {sorted(leaves - reach)} are in the tree but not reachable from the subject set")
+    if m.get("cuts") == "0" and impl["tree"] == m["tree"]:
+        if leaves != reach:
+            return ("c09-incomplete-unbound", f"no depth cut, yet reachable subject ids {sorted(reach - leaves)} are missing")
+        if "checkleaves" in impl and _ids(impl["checkleaves"]) != leaves:
+            return ("c09-check-differs", f"check allows {impl['checkleaves']} but the subject-id leaves are {impl['leaves']} (no rewrites, no depth cut)")
+    if not reachd <= leaves:
+        missing = sorted(reachd - leaves)
+        if impl["tree"] == m["tree"]:
+            return ("expand-dfs-order", f"subject ids {missing} are reachable within the effective depth but missing from the tree (first met at a deeper position, marked visited there)")
+        return ("c09-incomplete", f"subject ids {missing} are reachable within the effective depth but missing, and the tree is not the model's")
+    return True
+
+
+EXPAND_RULE = ("tuple graphs over 1-3 namespaces (legacy namespaces without relations, or OPL-shaped ones declaring the relations "
+               "the tuples use, loaded through the real parser): random graphs, chains up to 9, layered diamonds, cycles, the shape of "
+               "the known finding, duplicate rows, one state in 25 with 101-250 children below one node; every state is expanded at "
+               "global depth 400 (request depths 1..8 decide) and at one of the global depths 1..8 in turn (request depths -1, 0, 1..g, > g), "
+               "with the default and with small page sizes; non-trivial = the tree is a union node and at least 2 storage calls were made; "
+               "distinct = distinct protocol lines")
+
+
+
+
 ENGINE_RULE = ("configs from an OPL-shaped grammar (1-4 namespaces, related relations with plain and SubjectSet types, "
                "permissions over includes/permits/traverse/!/&&/||, rendered to OPL and loaded through the real parser, "
                "or legacy namespaces without relations), 0-54 tuples biased to declared relations, chains, cycles, duplicates; "
@@ -303,6 +508,87 @@ ENGINE_RULE = ("configs from an OPL-shaped grammar (1-4 namespaces, related rela
                "distinct = distinct protocol lines")
 
 PROPS = {
+    "C09": {
+        "lean_module": "Keto.Props.C09",
+        "theorems": ["Keto.C09_depth_sites_tie", "Keto.C09_edges_sound", "Keto.C09_once", "Keto.C09_depth",
+                     "Keto.C09_terminates", "Keto.C09_leaves_subset_reach", "Keto.C09_complete_unbound_partial",
+                     "Keto.C09_ids_eq_reach_partial", "Keto.C09_leaves_eq_check", "Keto.C09_mem_iff_reach",
+                     "Keto.C09_legacy_plain", "Keto.C09_reachWithin_spec", "Keto.C09_reachAll_spec",
+                     "Keto.C09_leaves_column_partial", "Keto.C09_order_counterexample"],
+        "streams": [{"name": "expand", "n": {"quick": 400, "thorough": 2000}, "oracle": oracle_c09, "thorough_seeds": 3}],
+        "rule": EXPAND_RULE,
+        "partial": "completeness within the effective depth is violated (known finding F-expand-order); proved instead: completeness whenever the run made no depth cut (cuts = 0)",
+        "assumptions": ["limit.max_read_depth >= 1 (required by the configuration schema) for C09_depth"],
+    },
+    "C04": {
+        "lean_module": "Keto.Props.C04",
+        "theorems": ["Keto.Store.C04_chunk_sizes_pos", "Keto.Store.C04_chunking_unobservable",
+                     "Keto.Store.C04_chunk_sizes_irrelevant", "Keto.Store.C04_refines", "Keto.Store.C04_refines_init",
+                     "Keto.Store.C04_observations", "Keto.Store.C04_rejected_no_effect", "Keto.Store.C04_invalid_rejected"],
+        "streams": [{"name": "store", "n": {"quick": 300, "thorough": 3000}, "oracle": oracle_c04, "thorough_seeds": 3},
+                    {"name": "store-nets", "n": {"quick": 150, "thorough": 1500}, "oracle": oracle_c04, "thorough_seeds": 3}],
+        "rule": STORE_RULE,
+        "partial": "",
+        "assumptions": ["C04_observations: the table is well formed (WF: shard order, distinct non-nil shard ids) and every request "
+                        "gets fresh shard ids (FreshRun) - the database's primary key and uuid.NewV4",
+                        "strings are interned by the harness: that UUIDv5(network, string) is injective is C16's business",
+                        "visibility to check/expand is by construction: the engine model reads the same table"],
+    },
+    "C05": {
+        "lean_module": "Keto.Props.C05",
+        "theorems": ["Keto.Store.C05_all_or_nothing", "Keto.Store.C05_error_iff", "Keto.Store.C05_kth_statement_fails",
+                     "Keto.Store.C05_requests_all_or_nothing", "Keto.Store.C05_apply_chunk_independent",
+                     "Keto.Store.C05_single_tx", "Keto.Store.C05_handlers_one_write"],
+        "streams": [{"name": "store-faults", "n": {"quick": 300, "thorough": 1500}, "oracle": oracle_c05, "thorough_seeds": 3}],
+        "rule": ("histories of 3-8 requests with sqlite triggers that abort an INSERT of a row with relation 'poison', a DELETE of a "
+                 "stored row with relation 'dpoison', a mapping INSERT of 'poison-string': exactly the chunk holding the poison fails; "
+                 "insert lists of 1,2,5,99,100,101 and (3 cases per run) 3000/3001, delete lists of 3,99,100,101,200,201 with the "
+                 "poison at index 0/middle/last, combined with inserts in the same request; all write kinds; full dump of both "
+                 "tables before/after; non-trivial = at least one request rolled back"),
+        "partial": "",
+        "assumptions": ["the database's transaction contract (working copy committed at the end, dropped on error) is trusted; "
+                        "only sqlite is exercised",
+                        "reader isolation is the database's, under the premise C05_single_tx (every writing call of the persister "
+                        "runs inside Transaction; regenerated SQL fact table); concurrent readers are not sampled by this stream"],
+    },
+    "C06": {
+        "lean_module": "Keto.Props.C06",
+        "theorems": ["Keto.Store.C06_frame", "Keto.Store.C06_frame_single", "Keto.Store.C06_no_leak", "Keto.Store.C06_sql_nid"],
+        "streams": [{"name": "store-nets", "n": {"quick": 300, "thorough": 3000}, "oracle": oracle_c06, "thorough_seeds": 3}],
+        "rule": STORE_RULE + "; 2-3 networks (Persisters with different network ids, handlers built on each) over ONE database run "
+                "interleaved histories with the same strings, tuples and queries, including delete-by-empty-query; f<i> compares the "
+                "rows (shard ids included) of all other networks before/after every item",
+        "partial": "",
+        "assumptions": ["check/expand isolation is the engine component's (the traversal SQL's nid predicates are in its fact tie); "
+                        "the mapping table is global by design"],
+    },
+    "C07": {
+        "lean_module": "Keto.Props.C07",
+        "theorems": ["Keto.Store.C07_static", "Keto.Store.C07_listAll", "Keto.Store.C07_each_once", "Keto.Store.C07_interleaved",
+                     "Keto.Store.C07_interleaved_histories", "Keto.Store.C07_negative_size_rejected",
+                     "Keto.Store.C07_negative_size_rejected_api", "Keto.Store.C07_bad_token_rejected",
+                     "Keto.Store.C07_bad_token_rejected_api"],
+        "streams": [{"name": "store", "n": {"quick": 300, "thorough": 3000}, "oracle": oracle_c07, "thorough_seeds": 3}],
+        "rule": STORE_RULE + "; iterations with small page sizes over tables of >= 4 rows are interleaved with inserts and deletes "
+                "of other rows between the fetches",
+        "partial": "",
+        "assumptions": ["WF: the table is in shard order with distinct non-nil shard ids (preserved by every request that gets fresh "
+                        "ids: run_WF)", "the internal consumers (expand, tuple-to-subject-set, traverser) are the engine component's"],
+    },
+    "C17": {
+        "lean_module": "Keto.Props.C17",
+        "theorems": ["Keto.Store.C17_readOnly_mapper", "Keto.Store.C17_mapQuery_preserves", "Keto.Store.C17_reads_preserve",
+                     "Keto.Store.C17_readonly", "Keto.Store.C17_only_writes_change"],
+        "streams": [{"name": "store-readonly", "n": {"quick": 300, "thorough": 3000}, "oracle": oracle_c17, "thorough_seeds": 3}],
+        "rule": ("3-10 writes, then a byte-level snapshot of keto_relation_tuples and keto_uuid_mappings (+ row counts of every "
+                 "other table), then 5-25 read-API requests with never-seen and known names: REST GET list, gRPC "
+                 "ListRelationTuples, Persister Get/Exists, REST GET/POST check (+openapi variants), batch check, expand, list "
+                 "namespaces, OPL syntax check, and the gRPC Check/BatchCheck/Expand/ListNamespaces/syntax methods; changed = the "
+                 "snapshot differs afterwards; non-trivial = at least one successful write before the snapshot"),
+        "partial": "",
+        "assumptions": ["the tie 'every handler of the read routers uses ReadOnlyMapper and only Get/Exists/Traverse*' is the "
+                        "route/mapper-use fact table's (handlers component)"],
+    },
     "C14": {
         "lean_module": ["Keto.Props.C14"],
         "theorems": ["Keto.C14_noninterference", "Keto.C14_progress", "Keto.C14_complete_runs", "Keto.C14_schedule_independent",
@@ -433,11 +719,13 @@ PROPS = {
         "assumptions": [],
     },
     "C01": {
-        "lean_module": "Keto.Props.C01",
-        "theorems": ["Keto.C01_depth_sites_tie", "Keto.C01_sound_pos", "Keto.build_sound", "Keto.Cfg.pos_of_posB"],
+        "lean_module": ["Keto.Props.C01", "Keto.Props.C01complete"],
+        "theorems": ["Keto.C01_depth_sites_tie", "Keto.C01_sound_pos", "Keto.build_sound", "Keto.Cfg.pos_of_posB",
+                     "Keto.C01_complete_pos_general", "Keto.C01_exact_pos_general", "Keto.C01_complete_pos", "Keto.C01_exact_pos",
+                     "Keto.C01_complete_pos_strict", "Keto.C01_complete_norewrite", "Keto.C01_complete_strict_counterexample"],
         "streams": [{"name": "engine-c01", "n": {"quick": 250, "thorough": 3000}, "oracle": oracle_c01, "thorough_seeds": 3}],
         "rule": ENGINE_RULE,
-        "partial": "",
+        "partial": "exactness (allowed iff member) is proved for configurations without '!' (Mem is the positive least fixpoint), in default mode and in strict mode on stores that conform to the declared types; for configurations with '!' the implementation is compared with the executable reference semantics refEval on every generated case whose limits are not binding; schedules: the sequential checkgroup semantics is proved to be what the concurrent group computes (C15_cg_*), and every fourth case also runs with the real concurrent group",
         "assumptions": [],
     },
     "C02": {
